@@ -435,6 +435,12 @@ def wrapper(ctx):
                         continue
                     pats.append("x[" + neg + body + "]" + tail)
     cases = [(p, e) for p in pats for e in ("emacs", "posix-basic", "posix-extended", "grep")]
+    # the pieces the operator spelling of the basic syntaxes tells apart (anchors of both kinds among them), every sequence of up to four
+    btoks = ["a", "*", "\\+", "\\?", "\\(", "\\)", "\\|", "^", "$", "\\{1\\}", "\\{", "\\}", "[a\\{]", "\n", "\\`", "\\'"]
+    for n in range(1, (5 if ctx.thorough else 4) + 1):
+        for tup in itertools.product(btoks, repeat=n):
+            for e in ("grep", "posix-basic"):
+                cases.append(("".join(tup), e))
     il = ["rxwrap %s %s" % (e, fw.hexs(p.encode())) for p, e in cases]
     ml = ["rxwrap %s %s" % (e, ".".join(str(ord(c)) for c in p) if p else "-") for p, e in cases]
     impl = fw.run_lines(fw.FUV, il)
